@@ -406,3 +406,55 @@ Proof.
   - rewrite (lc_digit_not_start c Hc Hd). reflexivity.
   - rewrite (lc_nodigit_alpha c Hc Hd). reflexivity.
 Qed.
+
+(* ---------- environment variable names ---------- *)
+Definition ucu (c : ascii) : bool := is_upper c || is_digit c || ceqb c "_"%char.
+Lemma alnum_upper_ucu c : is_alnum c = true -> ucu (to_upper c) = true.  Proof. case_ascii c. Qed.
+Lemma ucu_not_eq c : ucu c = true -> ceqb c "="%char = false.  Proof. case_ascii c. Qed.
+Lemma ucu_not_nul c : ucu c = true -> ceqb c "000"%char = false.  Proof. case_ascii c. Qed.
+
+Lemma forallb_join (P : ascii -> bool) sep (W : list str) :
+  forallb P sep = true -> forallb (forallb P) W = true -> forallb P (join sep W) = true.
+Proof.
+  intros Hs. induction W as [|x W IH]; [reflexivity|]. intros H. cbn [forallb] in H.
+  apply andb_prop in H as [Hx HW]. destruct W as [|y W']; [exact Hx|].
+  change (join sep (x :: y :: W')) with (x ++ sep ++ join sep (y :: W')).
+  rewrite !forallb_app, Hx, Hs, (IH HW). reflexivity.
+Qed.
+
+Lemma join_nonempty sep (W : list str) :
+  W <> [] -> forallb nonempty W = true -> nonempty (join sep W) = true.
+Proof.
+  destruct W as [|x W]; [congruence|]. intros _ H. cbn [forallb] in H. apply andb_prop in H as [Hx _].
+  destruct x as [|c t]; [discriminate|]. destruct W; reflexivity.
+Qed.
+
+(* The name passed to std::env::var is non-empty and made of [A-Z0-9_] only (so it holds neither '=' nor NUL, the two
+   characters the operating system refuses in a variable name), for every text over [A-Za-z0-9_ -] with a letter or
+   digit. *)
+Theorem screaming_snake_shape s :
+  forallb ad s = true -> existsb is_alnum s = true ->
+  nonempty (screaming_snake s) = true /\ forallb ucu (screaming_snake s) = true.
+Proof.
+  intros Ha He. destruct (words_of_ad s Ha He) as [Hn Hw]. unfold screaming_snake. split.
+  - apply join_nonempty.
+    + destruct (split_words s); [congruence|discriminate].
+    + rewrite forallb_map. eapply forallb_impl; [|exact Hw]. intros w H.
+      apply andb_prop in H as [H1 _]. unfold upper_s. rewrite nonempty_map. exact H1.
+  - apply forallb_join; [reflexivity|]. rewrite forallb_map. eapply forallb_impl; [|exact Hw]. intros w H.
+    apply andb_prop in H as [_ H2]. unfold upper_s. rewrite forallb_map.
+    eapply forallb_impl; [|exact H2]. apply alnum_upper_ucu.
+Qed.
+
+Theorem qualified_env_var_shape svc v :
+  forallb ad svc = true -> forallb ad v = true -> existsb is_alnum svc = true ->
+  nonempty (qualified_env_var svc v) = true /\ forallb ucu (qualified_env_var svc v) = true /\
+  contains_char "="%char (qualified_env_var svc v) = false /\ contains_char "000"%char (qualified_env_var svc v) = false.
+Proof.
+  intros Hs Hv He. unfold qualified_env_var.
+  assert (Ha : forallb ad (svc ++ lit " " ++ v) = true) by (rewrite !forallb_app, Hs, Hv; reflexivity).
+  assert (He' : existsb is_alnum (svc ++ lit " " ++ v) = true) by (rewrite existsb_app, He; reflexivity).
+  destruct (screaming_snake_shape _ Ha He') as [Hn Hu]. repeat split; [exact Hn|exact Hu| |].
+  - apply (forallb_not_contains ucu); [exact Hu|reflexivity].
+  - apply (forallb_not_contains ucu); [exact Hu|reflexivity].
+Qed.
